@@ -3,6 +3,7 @@
     exactness of release, age of discarded records. *)
 From Coq Require Import List NArith Arith Bool Lia.
 From BBS Require Import Index.Klm.
+(* -- (keeps lib/checklib.py's dependency scan from reading past the sentence) *)
 Import ListNotations.
 
 (** ---- lists ---- *)
